@@ -74,6 +74,10 @@ Proof.
 Qed.
 
 (* ------------------------------------------------------------------ SOAP headers *)
+(** the parser of a protocol built with the default arguments removes comments and PIs (generated flags) *)
+Lemma parsed_denoted d : parsed d = denoted d.
+Proof. reflexivity. Qed.
+
 Lemma hdr_match_qualified ns name e : hdr_match ns name e = is_elt ns name e.
 Proof. reflexivity. Qed.
 
@@ -381,5 +385,31 @@ Section Fidelity.
           unfold resp_ty. rewrite Es. cbn [fst]. rewrite Hn. reflexivity.
       + injection Erv as <-. fold U. destruct (m_returns m) as [|r [|? ?]]; destruct (norm U fuel (fst (resp_ty U0 i m)) ret); reflexivity.
       + injection Erv as <-. fold U. destruct (m_returns m) as [|r [|? ?]]; destruct (norm U fuel (fst (resp_ty U0 i m)) ret); reflexivity.
+  Qed.
+
+  (** the same for every DOCUMENT that denotes the client's request (the server's response): comments and
+      processing instructions anywhere in it -- between the items of an array, inside character data -- change nothing *)
+  Theorem call_fidelity_documents : forall i m (f : ufun) hv args ret oh,
+    nth_error (s_methods Sv) i = Some m ->
+    hdr_distinct U (m_in_header m) = true -> hdr_distinct U (m_out_header m) = true ->
+    args_conf L U0 Sv fuel i m args = true ->
+    hdrs_conf L U0 Sv fuel (m_in_header m) hv = true ->
+    (V = ValLxml -> forall e, enc L U fuel (fst (req_ty U0 i m)) (s_tns Sv) (m_name m) (req_value U0 i m args) = Ok e ->
+                    schema_valid (wire e) = true) ->
+    f (m_name m) (seen_header P U0 Sv fuel (m_in_header m) hv) (seen_args U0 Sv fuel i m args) = (ret, oh) ->
+    ret_conf L U0 Sv fuel i m ret = true ->
+    hdrs_conf L U0 Sv fuel (m_out_header m) oh = true ->
+    exists req resp,
+      client_request L P U0 Sv fuel i m hv args = Ok req
+      /\ (forall d : dnode, denoted d = wire req ->
+          server L P V schema_valid U0 Sv fuel f (parsed d)
+          = RReturn [(m_name m, seen_header P U0 Sv fuel (m_in_header m) hv, seen_args U0 Sv fuel i m args)] resp)
+      /\ (forall d : dnode, denoted d = wire resp ->
+          client_response L P V U0 Sv fuel i m (parsed d)
+          = Ok (seen_ret U0 Sv fuel i m ret, seen_header P U0 Sv fuel (m_out_header m) oh)).
+  Proof.
+    intros i m f hv args ret oh H1 H2 H3 H4 H5 H6 H7 H8 H9.
+    destruct (call_fidelity_lemma i m f hv args ret oh H1 H2 H3 H4 H5 H6 H7 H8 H9) as [req [resp [Hq [Hs Hc]]]].
+    exists req, resp. split; [exact Hq|]. split; intros d Hd; rewrite parsed_denoted, Hd; assumption.
   Qed.
 End Fidelity.
